@@ -30,7 +30,7 @@ RULE = ('arrangements: {output: factory | open stream} x {map: none | separate f
 ASSUMPTIONS = ['behaviour when close() itself raises, and non-string stream names, are not demanded',
                'the inline data URL is accepted in the form the helper writes it (parameters in any order) as long as '
                'its base64 payload decodes to the map']
-BUDGET_S = {'quick': 60, 'thorough': 600}
+BUDGET_S = {'quick': 90, 'thorough': 600}
 REQUIRED_HITS = ['io.write', 'io.read', 'fault_injected', 'close_checked', 'sourcemap.write', 'map_compared']
 FLOOR = {'quick': 300, 'thorough': 3000}
 
